@@ -150,3 +150,43 @@ def capture_not_stratum(ctx, d, n=1):
         d.run_pattern(pat, "base", True)
         ctx.event("capture_as_not_argument_probes")
     d.flags = saved
+
+
+WIDE = [("vpermil2ps", ["$0x1", "%xmm3", "%xmm2", "%xmm1", "%xmm0"]), ("vpermil2pd", ["$0x0", "%ymm4", "%ymm3", "%ymm2", "%ymm1"]),
+        ("vfmaddps", ["%xmm1", "%xmm2", "%xmm3", "%xmm4"]), ("vaddps", ["%zmm2", "%zmm1", "%zmm0{%k1}{z}"]), ("vaddps", ["{rn-sae}", "%zmm1", "%zmm2", "%zmm3"]),
+        ("vmovaps", ["%zmm2", "%zmm1{%k1}"]), ("vcmpps", ["$0x1", "%zmm1", "%zmm2", "%k2{%k3}"]), ("vblendvps", ["%ymm1", "%ymm2", "%ymm3", "%ymm4"]),
+        ("mov", ["%rax", "%rbx"]), ("push", ["%rbp"]), ("ret", []), ("nop", [])]
+
+
+def wide_instruction_stratum(ctx, d, n):
+    """Instructions with four and five operands and operands carrying AVX-512 brace decorations, as objdump prints them: an
+    instruction-level $not consumes such an instruction like any other, an operand-level $not stands for one such operand."""
+    rng = ctx.rng
+    for _ in range(n):
+        insts, addr = [], 0x401000
+        rows = [rng.choice(WIDE) for _ in range(rng.randint(4, 9))]
+        for m, ops in rows:
+            insts.append(L.SInst(addr, m, list(ops), None, None, 6, verbatim=True))
+            addr += 6
+        prep = dsl.Prepared(d.ws, insts, rng)
+        ctx.ran()
+        if not prep.verify(d.ws):
+            ctx.inconc("parser disagreement on synthetic listing")
+            continue
+        d.prep, d.style = prep, "wide-instructions"
+        k = rng.randrange(len(rows) - 1)
+        m, ops = rows[k]
+        nxt = rows[k + 1][0]
+        fields = list(prep.expect[k][2])
+        # instruction level: a $not that must succeed / must reject at a wide instruction, followed by the next instruction
+        d.run_pattern([{"$not": [rng.choice(["push", "zzz", m])]}, nxt], "base", True)
+        d.run_pattern([{"$not": [{m: [fields[0]]}]} if fields[0] else {"$not": [m]}, nxt], "base", True)
+        # operand level: $not at each operand position of the wide instruction
+        if fields and fields[0]:
+            p = rng.randrange(len(fields))
+            arg = rng.choice(["zzz", fields[p], fields[-1], "%zmm3", "%k1"])
+            operands = [RG_name(f) for f in fields[:p]] + [{"$not": [arg]}] + [RG_name(f) for f in fields[p + 1:]]
+            d.run_pattern([{m: operands}], "base", True)
+            if p + 1 < len(fields):
+                d.run_pattern([{m: [RG_name(f) for f in fields[:p]] + [{"$not": ["zzz"]}, RG_name(fields[p + 1])]}], "base", True)
+        ctx.event("wide_instruction_probes")
